@@ -479,7 +479,7 @@ pub fn c06_def() -> HistProp {
             v
         },
         oracles: || vec![Box::new(ListingProbe)],
-        budget_s: |t| if t == "quick" { 30 } else { 900 },
+        budget_s: |t| if t == "quick" { 50 } else { 900 },
         max_states: 1_000_000,
         assumptions: &["the start cluster is compared behaviourally (cluster 0 <=> ClusterId::EMPTY / root marker, otherwise reading through the crate yields what the independent reader finds at the on-disk cluster)"],
     }
@@ -680,7 +680,7 @@ pub fn c07_def() -> HistProp {
             v
         },
         oracles: || vec![Box::new(Matrix)],
-        budget_s: |t| if t == "quick" { 40 } else { 900 },
+        budget_s: |t| if t == "quick" { 50 } else { 900 },
         max_states: 500_000,
         assumptions: &["when two documented refusals apply at once either error is accepted", "deleting a file with the read-only attribute is outside the property (either outcome accepted)"],
     }
